@@ -125,6 +125,31 @@ def case_space(R, res, lines, expect):
     for p in hps.space:
         if back.is_active(p) != hps.is_active(p):
             raise Violation("C15", f"activity of {p.name} differs after the round trip", {"tag": "activity"})
+    # ... and behaves like the original when asked by NAME (the container's per-name tables are rebuilt by from_config): activity,
+    # membership, lookup, completion of the values, and declaring the same entries again registers nothing new
+    names = []
+    for p in hps.space:
+        if p.name not in names:
+            names.append(p.name)
+    for nm in names:
+        if back.is_active(nm) != hps.is_active(nm):
+            raise Violation("C15", f"is_active({nm!r}) is {back.is_active(nm)} on the reloaded search space, {hps.is_active(nm)} on the original (values {hps.values})",
+                            {"tag": "activity-by-name"})
+        if (nm in back) != (nm in hps):
+            raise Violation("C15", f"{nm!r} in <space> differs after the round trip", {"tag": "contains-by-name"})
+        if hps.is_active(nm):
+            x, y = hps.get(nm), back.get(nm)
+            if not (x == y and kind_of(x) == kind_of(y)):
+                raise Violation("C15", f"get({nm!r}) gives {y!r} on the reloaded search space, {x!r} on the original", {"tag": "get-by-name"})
+    back2 = kt.HyperParameters.from_config(through_json(cfg))
+    back2.ensure_active_values()
+    if {k: (kind_of(v), v) for k, v in back2.values.items()} != {k: (kind_of(v), v) for k, v in hps.values.items()}:
+        raise Violation("C15", f"ensure_active_values() on the reloaded search space changes the values: {back2.values} vs {hps.values}", {"tag": "values-completed"})
+    back3 = kt.HyperParameters.from_config(through_json(cfg))
+    gen.build_space(specs, hps=back3)
+    if len(back3.space) != len(hps.space):
+        raise Violation("C15", f"declaring the same entries on the reloaded search space registers {len(back3.space) - len(hps.space)} new one(s): it does not recognise its own entries",
+                        {"tag": "redeclare"})
     # copy: equal and independent
     cp = hps.copy()
     if canon(through_json(cp.get_config())) != canon(cfg):
